@@ -851,20 +851,21 @@ func (c *FnCtx) sumIntrinsic(fr *Frame, st *State, name string, cc *ssa.CallComm
 		unsupported("%s: the summand must be a named top-level function", name)
 	}
 	x := c.toTerm(st, fr.val(cc.Args[fi+1]), cc.Args[fi+1].Type())
-	y := c.toTerm(st, fr.val(cc.Args[fi+2]), cc.Args[fi+2].Type())
+	ks := c.toTerm(st, fr.val(cc.Args[fi+2]), cc.Args[fi+2].Type())
+	y := c.toTerm(st, fr.val(cc.Args[fi+3]), cc.Args[fi+3].Type())
 	c.trusted["sums over the entries of a map (verifSumKeys / verifSumVisited) do not depend on the iteration order; defined by: empty set 0, adding an unvisited key adds its summand"] = true
-	return c.psum(st, f.fn, x, y, m, set, 0)
+	return c.psum(st, f.fn, x, ks, y, m, set, 0)
 }
 
-func (c *FnCtx) psum(st *State, fn *ssa.Function, x, y, m, set *Term, depth int) *Term {
+func (c *FnCtx) psum(st *State, fn *ssa.Function, x, ks, y, m, set *Term, depth int) *Term {
 	ts := c.eng.ts
 	if set.kind == kApp && set.op == "ite" && depth < 6 {
-		return ts.Ite(set.args[0], c.psum(st, fn, x, y, m, set.args[1], depth+1), c.psum(st, fn, x, y, m, set.args[2], depth+1))
+		return ts.Ite(set.args[0], c.psum(st, fn, x, ks, y, m, set.args[1], depth+1), c.psum(st, fn, x, ks, y, m, set.args[2], depth+1))
 	}
 	mt := types.NewMap(types.Typ[types.String], types.NewInterfaceType(nil, nil))
 	mh := c.mapHeaps(st, mt)
 	hd, hs, hl := c.heap(st, mh.dom, mh.sdom), c.heap(st, mh.sel, mh.ssel), c.heap(st, mh.ln, mh.sln)
-	t := ts.UF("psum!"+fn.Name(), SInt, hd, hs, hl, x, y, m, set)
+	t := ts.UF("psum!"+fn.Name(), SInt, hd, hs, hl, x, ks, y, m, set)
 	if c.specSeen == nil {
 		c.specSeen = map[string]bool{}
 		c.specDepth = map[*ssa.Function]int{}
@@ -880,14 +881,14 @@ func (c *FnCtx) psum(st *State, fn *ssa.Function, x, y, m, set *Term, depth int)
 		c.addFactT(neutral, t, ts.Eq(t, ts.Int(0)))
 	case set.kind == kApp && set.op == "store" && set.args[2].IsTrue() && depth < 6:
 		s0, k := set.args[0], set.args[1]
-		rest := c.psum(st, fn, x, y, m, s0, depth+1)
+		rest := c.psum(st, fn, x, ks, y, m, s0, depth+1)
 		work := st.clone()
 		work.pc = ts.Bool(true)
 		v := ts.Select(ts.Select(hs, m), k)
 		saved := c.curTag
 		c.curTag = 2
 		c.noObl++
-		fv := c.inline(work, fn, []*Term{k, v, x, y}, true)
+		fv := c.inline(work, fn, []*Term{k, v, x, ks, y}, true)
 		c.noObl--
 		c.curTag = saved
 		c.addFactT(neutral, t, ts.Eq(t, ts.Add(rest, ts.Ite(ts.Select(s0, k), ts.Int(0), fv[0]))))
